@@ -161,15 +161,16 @@ Definition expected_digests : list (string * string) :=
   ("petri_net/logic.py:PetriNetLogic.fire_event", "5b85cf65ee9ea2defec7101f38d733c7");
   ("petri_net/generator.py:PetriNetGenerator.generate_statements", "c7d7a8ef3436cc0d2a002d92d9b5b565");
   ("petri_net/generator.py:PetriNetGenerator.add_callback", "9e1ed7b1a03fd3e190e099e546bfb3fa");
-  ("scheduler.py:Scheduler.fire_event", "3082770a5c01db77195052ef785bb805");
-  ("scheduler.py:Scheduler.start", "351c00c1bb47b606e34773d1a14358ee");
+  ("scheduler.py:Scheduler.fire_event", "32f33b64ac0a4266b26cab34f645254f");
+  ("scheduler.py:Scheduler._fire_event", "3082770a5c01db77195052ef785bb805");
+  ("scheduler.py:Scheduler.start", "9f2241e6c39796db437ea96a4000942a");
   ("scheduler.py:Scheduler.on_task_started", "2eb99279b3c73381d423f5fd56a3ac77");
   ("scheduler.py:Scheduler.on_service_started", "e3462fc3655837add7a8d441c4bc51dc");
   ("scheduler.py:Scheduler.on_service_finished", "8f7dd9ec57a0db244613bc54f3947f40");
   ("scheduler.py:Scheduler.on_task_finished", "149843c647bc9fde485e6a6e4a06efb4");
-  ("scheduler.py:Scheduler.on_condition_started", "fc7d574cf000c5d71d628bdae55a488a");
-  ("scheduler.py:Scheduler.on_while_loop_started", "2344ec1ddc8cb5470a8e4f083063fb33");
-  ("scheduler.py:Scheduler.on_counting_loop_started", "a5fedf698b9c79d1f282167c3207284b");
+  ("scheduler.py:Scheduler.on_condition_started", "01634c5e3cd09c4b26a9b2cd0fb9f2e6");
+  ("scheduler.py:Scheduler.on_while_loop_started", "599096f9a493edc69a0f2c1f2b228ac9");
+  ("scheduler.py:Scheduler.on_counting_loop_started", "c46eff612cb909ea119173d4ae7a6cf4");
   ("scheduler.py:Scheduler.on_parallel_loop_started", "2470ea92ebd33c0a056d8f9883359fbe");
   ("scheduler.py:Scheduler.substitute_loop_indexes", "9f7ced06c410254d46a243896e8df181");
   ("scheduler.py:Scheduler.get_loop_limit", "a113c65b1aa9bac178dba100d7548df2")
